@@ -447,10 +447,16 @@ class Server:
                        # human-readable text in a legacy charset (not valid UTF-8)
                        b"Acc\xe8s refus\xe9", b"\xff\xfe denied", b"caf\xe9"]
 
+    def _lookalike(self):
+        if self.rng.random() < 0.6:
+            return self.rng.choice(self.LOOKALIKE_TEXTS)
+        from . import textgen  # W-TEXT: texts from broad character classes
+        return textgen.text(self.rng, 0, 8).encode("utf-8")
+
     def final(self, kind, code=None, text=None):
         how = self.how()
         if self.lookalike_texts:
-            text = self.rng.choice(self.LOOKALIKE_TEXTS)
+            text = self._lookalike()
             how = "literal"
         self.last_status = (kind, code, text)
         self.status_log.append((self.ncmd, kind, code, text))
@@ -491,7 +497,7 @@ class Server:
                 return
             self.emit(self.cap_lines())
             if self.lookalike_texts:
-                self.emit(status("OK", None, self.rng.choice(self.LOOKALIKE_TEXTS), "literal"))
+                self.emit(status("OK", None, self._lookalike(), "literal"))
             else:
                 self.emit(self.greeting_status)
 
